@@ -840,13 +840,11 @@ func (m *Memory) FindLatest(
 	}
 	s := query.Start
 	e := query.End
-	mach := m.Mach
 
 	return m.Match(ctx, func(
 		now *am.TimeIndex, db []*MemoryRecord,
 	) []*MemoryRecord {
 		mTimeIdxs := m.Index(s.MTimeStates)
-		var older *MemoryRecord
 		var ret []*MemoryRecord
 
 		for i := len(db) - 1; i >= 0; i-- {
@@ -854,46 +852,40 @@ func (m *Memory) FindLatest(
 				return nil
 			}
 			r := db[i]
-			older = nil
-			if i > 0 {
-				older = db[i-1]
-			}
 
 			// states conditions
+			states := true
 
 			// Active
 			for _, state := range query.Active {
 				if !am.IsActiveTick(r.Time.MTimeTracked[m.Index1(state)]) {
-					continue
+					states = false
 				}
 			}
-			// Activated
+			// Activated (by this very transition)
 			for _, state := range query.Activated {
 				idx := m.Index1(state)
-				if !am.IsActiveTick(r.Time.MTimeTracked[idx]) {
-					continue
-				}
-				// if has previously been active
-				if older != nil && am.IsActiveTick(older.Time.MTimeTracked[idx]) {
-					continue
+				if !am.IsActiveTick(r.Time.MTimeTracked[idx]) ||
+					r.Time.MTimeTrackedDiff[idx]%2 == 0 {
+					states = false
 				}
 			}
 			// Inactive
 			for _, state := range query.Inactive {
-				if am.IsActiveTick(r.Time.MTimeTracked[mach.Index1(state)]) {
-					continue
+				if am.IsActiveTick(r.Time.MTimeTracked[m.Index1(state)]) {
+					states = false
 				}
 			}
-			// Deactivated
+			// Deactivated (by this very transition)
 			for _, state := range query.Deactivated {
 				idx := m.Index1(state)
-				if am.IsActiveTick(r.Time.MTimeTracked[idx]) {
-					continue
+				if am.IsActiveTick(r.Time.MTimeTracked[idx]) ||
+					r.Time.MTimeTrackedDiff[idx]%2 == 0 {
+					states = false
 				}
-				// if has previously been inactive
-				if older != nil && !am.IsActiveTick(older.Time.MTimeTracked[idx]) {
-					continue
-				}
+			}
+			if !states {
+				continue
 			}
 			// MTimeStates
 			if len(s.MTimeStates) > 0 {
